@@ -27,11 +27,11 @@ let show_strs = function
 
 let eval inp =
   match words inp with
-  | ["Z"; off; n; mem] ->
+  | [("Z" | "z"); off; n; mem] ->
     show_res (fun (m, r) -> string_of_z r ^ " " ^ hexz m) (M.zero (zbytes mem) (z_of_int (int_of_string off)) (z_of_int (int_of_string n)))
-  | ["L"; off; n; mem] ->
+  | [("L" | "l"); off; n; mem] ->
     show_res string_of_z (M.leading_zeroes (zbytes mem) (z_of_int (int_of_string off)) (z_of_int (int_of_string n)))
-  | ["T"; off; n; mem] ->
+  | [("T" | "t"); off; n; mem] ->
     show_res string_of_z (M.trailing_zeroes (zbytes mem) (z_of_int (int_of_string off)) (z_of_int (int_of_string n)))
   | ["U"; n; s] -> show_res hexz (M.trunc (zbytes s) (z_of_int (int_of_string n)))
   | ["C"; a; b] -> show_res string_of_z (M.compare_natural (zbytes a) (zbytes b))
@@ -103,7 +103,10 @@ let spec prop inp out =
   if out = "hang" then Some "the call does not return (no answer within the 2 s watchdog; a call takes microseconds)" else
   if out = "hang-skipped" then Some "not run: three earlier cases of this kind did not return (hang)" else
   match words inp with
-  | [("Z" | "L" | "T") as op; off; n; mem] ->
+  | [("Z" | "L" | "T" | "z" | "l" | "t") as op; off; n; mem] ->
+    (* z l t: the same calls on a slice whose capacity is open to the end of the buffer; the
+       clauses are the same -- what lies between len and cap is not the function's to read *)
+    let op = String.uppercase_ascii op in
     let off = int_of_string off and n = int_of_string n and m = raw mem in
     if panicked then Some "panics on a slice that lies inside its buffer" else
     let w = String.sub m off n in
